@@ -1,7 +1,7 @@
 #!/bin/bash
 # tools/run_harmless.sh [glob] : regression over harmless/ and harmless2/: behaviour-preserving patches, no check may alarm.
 V=$(cd "$(dirname "$0")/.." && pwd)
-for p in "$V"/harmless/${1:-*}.diff "$V"/harmless2/${1:-*}.diff; do
+for p in "$V"/harmless/${1:-*}.diff "$V"/harmless2/${1:-*}.diff "$V"/harmless3/${1:-*}.diff; do
   [ -f "$p" ] || continue
   out=$("$V/tools/try_patch_all.sh" "$p" 2>&1 | grep -v "pyenv\|^KNOWN")
   if echo "$out" | grep -q "^ALARM\|does not apply"; then echo "ALARM    $(basename $p) :: $(echo "$out" | grep '^ALARM\|does not apply' | head -3 | tr '\n' ' ' | cut -c1-300)"; else echo "quiet    $(basename $p)"; fi
